@@ -76,7 +76,8 @@ func (k Kind) String() string { return kindNames[k] }
 // Rules are the effective array rules of a collection / string node.
 type Rules struct {
 	Min, Max  uint     // 0 = unbounded
-	AutoOrder bool     // TypeSettings.WithLexicalOrdering(true)
+	LexSet    bool     // the lexical-ordering flag is set explicitly (WithLexicalOrdering(true or false))
+	AutoOrder bool     // value of the flag: TypeSettings.WithLexicalOrdering(true)
 	ValOrder  bool     // ArrayValidationModeLexicalOrdering
 	NoDup     bool     // ArrayValidationModeNoDuplicates
 	OneOfEach uint8    // 0, 1 (AtMostOneOfEachTypeByte) or 4 (…Uint32)
@@ -86,8 +87,19 @@ type Rules struct {
 // Sorted reports whether the encoder sorts the elements (maps always do).
 func (r Rules) Sorted() bool { return r.AutoOrder && r.ValOrder }
 
-func (r Rules) zero() bool {
-	return r.Min == 0 && r.Max == 0 && !r.AutoOrder && !r.ValOrder && !r.NoDup && r.OneOfEach == 0 && len(r.MustOccur) == 0
+func (r Rules) zero() bool { return r.noArrayRules() && !r.AutoOrder && !r.LexSet }
+
+// noArrayRules: nothing that lives in serix.ArrayRules is set (the ordering flag is a separate setting).
+func (r Rules) noArrayRules() bool {
+	return r.Min == 0 && r.Max == 0 && !r.ValOrder && !r.NoDup && r.OneOfEach == 0 && len(r.MustOccur) == 0
+}
+
+// TopSettings are type settings handed to Encode/Decode through serix.WithTypeSettings for a
+// top-level value (precedence: option > registry). R carries only what the option sets.
+type TopSettings struct {
+	LP       uint8 // 0: the option sets no length prefix type
+	HasRules bool  // the option carries ArrayRules (Min/Max/ValOrder/NoDup of R)
+	R        Rules // LexSet/AutoOrder: the explicit ordering flag of the option
 }
 
 // Code is an object type code written in front of a struct / byte array / custom object.
@@ -134,6 +146,7 @@ type Shape struct {
 	Impls  *[]*Shape // Iface: registered implementations (shared with the Universe)
 	CodeW  uint8     // Iface: code width
 	Codec  *CustomCodec
+	Top    *TopSettings // non-nil: top-level shape that is encoded/decoded with serix.WithTypeSettings
 }
 
 // Val is one node of a value tree. Which members are used depends on the Shape.
@@ -215,6 +228,11 @@ func (s *Shape) str(b *strings.Builder, depth int) {
 			}
 			if s.R.AutoOrder {
 				b.WriteString(" auto")
+			} else if s.R.LexSet {
+				b.WriteString(" lexfalse")
+			}
+			if s.Top != nil {
+				b.WriteString(" opt")
 			}
 			if s.R.ValOrder {
 				b.WriteString(" lex")
@@ -314,6 +332,12 @@ func (s *Shape) Features() (single []string, pairs []string) {
 			if s.R.ValOrder && !s.R.AutoOrder {
 				one[s.Kind.String()+"/lexical"] = true
 			}
+			if s.R.LexSet {
+				one[fmt.Sprintf("%s/lexflag=%v", s.Kind, s.R.AutoOrder)] = true
+			}
+			if s.Top != nil {
+				one[s.Kind.String()+"/top-option"] = true
+			}
 			if s.R.NoDup {
 				one[s.Kind.String()+"/nodup"] = true
 			}
@@ -377,7 +401,7 @@ func (s *Shape) Features() (single []string, pairs []string) {
 // that the value generator marks as JSON-expressible: string-like map keys only,
 // and the top level must be a struct (MapEncode returns an object).
 func (s *Shape) JSONable() bool {
-	if s.Kind != Struct && !(s.Kind == Ptr && s.Elem.Kind == Struct) {
+	if s.Kind != Struct && !(s.Kind == Ptr && s.Elem.Kind == Struct) && s.Kind != Map {
 		return false
 	}
 	return s.jsonOK(0, map[*Shape]bool{})
